@@ -213,6 +213,56 @@ impl<W: SimWord> WordSeek for SparseWordRead<W> {
     }
 }
 
+/// Seekable byte source with a run of `zeros` zero bytes between a real head and a
+/// real tail (streams of up to 2^62 bytes under the real WordAdapter). No faults.
+#[derive(Clone)]
+pub struct SparseBytes {
+    pub head: Rc<Vec<u8>>,
+    pub zeros: u64,
+    pub tail: Rc<Vec<u8>>,
+    pub pos: u64,
+}
+
+impl SparseBytes {
+    pub fn total(&self) -> u64 {
+        self.head.len() as u64 + self.zeros + self.tail.len() as u64
+    }
+}
+
+impl std::io::Read for SparseBytes {
+    fn read(&mut self, buf: &mut [u8]) -> std::io::Result<usize> {
+        let h = self.head.len() as u64;
+        let mut n = 0;
+        while n < buf.len() && self.pos < self.total() {
+            buf[n] = if self.pos < h {
+                self.head[self.pos as usize]
+            } else if self.pos < h + self.zeros {
+                0
+            } else {
+                self.tail[(self.pos - h - self.zeros) as usize]
+            };
+            n += 1;
+            self.pos += 1;
+        }
+        Ok(n)
+    }
+}
+
+impl std::io::Seek for SparseBytes {
+    fn seek(&mut self, from: std::io::SeekFrom) -> std::io::Result<u64> {
+        let t: i128 = match from {
+            std::io::SeekFrom::Start(p) => p as i128,
+            std::io::SeekFrom::Current(d) => self.pos as i128 + d as i128,
+            std::io::SeekFrom::End(d) => self.total() as i128 + d as i128,
+        };
+        if t < 0 || t > u64::MAX as i128 {
+            return Err(std::io::Error::new(ErrorKind::InvalidInput, "seek out of range"));
+        }
+        self.pos = t as u64;
+        Ok(self.pos)
+    }
+}
+
 /// What the word sink saw, in order.
 #[derive(Debug, Default)]
 pub struct WordLog {
@@ -241,6 +291,8 @@ pub enum RdInner<W: SimWord> {
     BufCursor(WordAdapter<W, BufReader<Cursor<Vec<u8>>>>),
     Faulty(FaultyWordRead<W>),
     Sparse(SparseWordRead<W>),
+    SparseAdapter(WordAdapter<W, SparseBytes>),
+    SparseBufAdapter(WordAdapter<W, BufReader<SparseBytes>>),
 }
 
 #[derive(Debug, Default)]
@@ -269,7 +321,7 @@ impl<W: SimWord> AnyWordRead<W> {
     pub fn can_clone(&self) -> bool {
         matches!(
             self.inner,
-            RdInner::MemInf(_) | RdInner::MemStrict(_) | RdInner::Adapter(_) | RdInner::Cursor(_) | RdInner::Faulty(_) | RdInner::Sparse(_)
+            RdInner::MemInf(_) | RdInner::MemStrict(_) | RdInner::Adapter(_) | RdInner::Cursor(_) | RdInner::Faulty(_) | RdInner::Sparse(_) | RdInner::SparseAdapter(_)
         )
     }
 }
@@ -283,6 +335,7 @@ impl<W: SimWord> Clone for AnyWordRead<W> {
             RdInner::Cursor(r) => RdInner::Cursor(r.clone()),
             RdInner::Faulty(r) => RdInner::Faulty(r.clone()),
             RdInner::Sparse(r) => RdInner::Sparse(r.clone()),
+            RdInner::SparseAdapter(r) => RdInner::SparseAdapter(r.clone()),
             _ => panic!("harness error: clone of a non-clonable backend"),
         };
         // the clone gets its own counters (a copy), published through a
@@ -328,6 +381,8 @@ impl<W: SimWord> WordRead for AnyWordRead<W> {
             RdInner::BufCursor(r) => r.read_word().map_err(SimErr::from),
             RdInner::Faulty(r) => r.read_word(),
             RdInner::Sparse(r) => r.read_word(),
+            RdInner::SparseAdapter(r) => r.read_word().map_err(SimErr::from),
+            RdInner::SparseBufAdapter(r) => r.read_word().map_err(SimErr::from),
         };
         let mut st = self.stats.borrow_mut();
         match &r {
@@ -355,6 +410,8 @@ impl<W: SimWord> WordSeek for AnyWordRead<W> {
             RdInner::BufCursor(r) => r.word_pos().map_err(SimErr::from),
             RdInner::Faulty(r) => r.word_pos(),
             RdInner::Sparse(r) => r.word_pos(),
+            RdInner::SparseAdapter(r) => r.word_pos().map_err(SimErr::from),
+            RdInner::SparseBufAdapter(r) => r.word_pos().map_err(SimErr::from),
         }
     }
     fn set_word_pos(&mut self, p: u64) -> Result<(), SimErr> {
@@ -369,6 +426,8 @@ impl<W: SimWord> WordSeek for AnyWordRead<W> {
             RdInner::BufCursor(r) => r.set_word_pos(p).map_err(SimErr::from),
             RdInner::Faulty(r) => r.set_word_pos(p),
             RdInner::Sparse(r) => r.set_word_pos(p),
+            RdInner::SparseAdapter(r) => r.set_word_pos(p).map_err(SimErr::from),
+            RdInner::SparseBufAdapter(r) => r.set_word_pos(p).map_err(SimErr::from),
         };
         if r.is_ok() {
             self.cursor = p;
